@@ -23,21 +23,14 @@ Reading of the text, clause by clause:
 namespace Restli.Routing.Spec
 
 /-- the thirteen method names of the Rest.li protocol (values of `X-RestLi-Method`) -/
-def methodNamed : String → Option Method
-  | "get" => some .get
-  | "create" => some .create
-  | "delete" => some .delete
-  | "update" => some .update
-  | "partial_update" => some .partial_update
-  | "batch_get" => some .batch_get
-  | "batch_create" => some .batch_create
-  | "batch_delete" => some .batch_delete
-  | "batch_update" => some .batch_update
-  | "batch_partial_update" => some .batch_partial_update
-  | "get_all" => some .get_all
-  | "action" => some .action
-  | "finder" => some .finder
-  | _ => none
+def methodTable : List (String × Method) :=
+  [("get", .get), ("create", .create), ("delete", .delete), ("update", .update),
+   ("partial_update", .partial_update), ("batch_get", .batch_get), ("batch_create", .batch_create),
+   ("batch_delete", .batch_delete), ("batch_update", .batch_update),
+   ("batch_partial_update", .batch_partial_update), ("get_all", .get_all), ("action", .action),
+   ("finder", .finder)]
+
+def methodNamed (name : String) : Option Method := methodTable.lookup name
 
 /-- the HTTP verb the protocol sends each method with -/
 def verbOf : Method → Option Verb
@@ -86,29 +79,32 @@ def locate (roots : List Node) : List String → Option Target
   | [] => none
   | r :: rest => (findSub r roots).bind fun n => locateAt n rest
 
-/-- the Rest.li method the request asks for; `none` when the protocol names none -/
-def methodOf (t : Target) (req : Req) : Option Method :=
-  if t.node.isCollection then
-    match methodHeader req with
+/-- the Rest.li method a request asks for, from: the kind of the resource, whether it carries an
+entity key, the verb, the method header, and the presence of `q`, `ids`, `action`.
+`none` when the protocol names no method. -/
+def methodFor (isCollection hasKey : Bool) (verb : Verb) (header : Option String) (q ids action : Bool) :
+    Option Method :=
+  if isCollection then
+    match header with
     | some h => methodNamed h                      -- the header names it
     | none =>
-      match req.verb with
-      | .GET =>
-        if t.hasKey then some .get
-        else if (param "q" req).isSome then some .finder
-        else if (param "ids" req).isSome then some .batch_get
-        else some .get_all
-      | .PUT => if t.hasKey then some .update else if (param "ids" req).isSome then some .batch_update else none
-      | .DELETE => if t.hasKey then some .delete else if (param "ids" req).isSome then some .batch_delete else none
+      match verb with
+      | .GET => if hasKey then some .get else if q then some .finder else if ids then some .batch_get else some .get_all
+      | .PUT => if hasKey then some .update else if ids then some .batch_update else none
+      | .DELETE => if hasKey then some .delete else if ids then some .batch_delete else none
       | .POST => none                                -- POST requires the header
       | .other => none
   else
-    match req.verb with
+    match verb with
     | .GET => some .get
     | .PUT => some .update
     | .DELETE => some .delete
-    | .POST => if (param "action" req).isSome then some .action else some .partial_update
+    | .POST => if action then some .action else some .partial_update
     | .other => none
+
+def methodOf (t : Target) (req : Req) : Option Method :=
+  methodFor t.node.isCollection t.hasKey req.verb (methodHeader req)
+    (param "q" req).isSome (param "ids" req).isSome (param "action" req).isSome
 
 /-- whether method `m` takes an entity key, on a collection-like resource (`none`: it depends on
 the action) -/
@@ -118,16 +114,17 @@ def takesKey : Method → Option Bool
   | .get_all | .finder => some false
   | .action | .unknown => none
 
-/-- the routed facts if `m` is registered on the target and key presence matches; else `none` -/
-def admitted (t : Target) (m : Method) (req : Req) : Option Facts :=
+/-- the routed facts if `m` is registered on the target and key presence matches; else `none`.
+`q` / `action` are the values of the reserved parameters. -/
+def admittedWith (t : Target) (m : Method) (q action : Option String) : Option Facts :=
   match m with
   | .unknown => none
   | .finder =>
-    match param "q" req with
+    match q with
     | some name => if t.node.finders.contains name && !t.hasKey then some ⟨m, t.rpath, t.keys, some name, none⟩ else none
     | none => none
   | .action =>
-    match param "action" req with
+    match action with
     | some name =>
       match t.node.actions.lookup name with
       | some onEntity => if onEntity == t.hasKey then some ⟨m, t.rpath, t.keys, none, some name⟩ else none
@@ -136,6 +133,9 @@ def admitted (t : Target) (m : Method) (req : Req) : Option Facts :=
   | _ =>
     if t.node.methods.contains m && (if t.node.isCollection then takesKey m == some t.hasKey else !t.hasKey)
     then some ⟨m, t.rpath, t.keys, none, none⟩ else none
+
+def admitted (t : Target) (m : Method) (req : Req) : Option Facts :=
+  admittedWith t m (param "q" req) (param "action" req)
 
 /-- the decision table. `V` is the well-formedness of a key or query value as a Rest.li encoded
 string; a malformed one makes the request a bad request. -/
